@@ -101,6 +101,11 @@ add("C09", "exploration",
     "literal paths; one load site per path and evaluation",
     "runtime monitoring: differential value monitor with load semantics + reader execution-log monitor", "E1-pipeline")
 
+add("C18", "exploration",
+    "Graph monitor: programs (skeletons, keep chains of depth 1-4 with shared sub-nodes, one function under several paths, run-time-argument chains, loads, random DAGs) are evaluated with and without dds_export_graph=<file>.plain (also analysis-only); the file rendered by graphviz is parsed back; oracle from generator ground truth = same result and signatures, export never raises, acyclic, declared nodes = kept paths + paths loaded by kept functions, solid edges exactly the first-level keep reachability, dashed edges exactly the own-body loads, other edges only call-order hints between siblings. Held on the programs observed (one listed finding).",
+    "loads reached only through non-kept helpers are optional; dotted hints may end at any kept node first reached by a sibling call that takes arguments",
+    "runtime monitoring: exported-artifact monitor (graph parsed back) against generator ground truth + with/without differential", "E1-pipeline")
+
 NOT_YET = {}
 
 
